@@ -6,6 +6,7 @@ package main
 
 import (
 	"context"
+	"errors"
 	"fmt"
 	"math/rand"
 	"os"
@@ -23,6 +24,8 @@ import (
 	"github.com/bartossh/Computantis/src/transaction"
 	"github.com/bartossh/Computantis/src/transformers"
 	"github.com/bartossh/Computantis/src/wallet"
+	"google.golang.org/grpc"
+	"google.golang.org/protobuf/types/known/emptypb"
 )
 
 // raceMain: drive race <seed> <seconds>
@@ -47,14 +50,13 @@ func raceMain(args []string) {
 	fl, _ := cache.NewFlash()
 	jug := pipe.New(60000, 60000)
 	g := gossip.VerifNew(ab, wallet.NewVerifier(), node, nopLogger{}, hc, fl, jug, "url", time.Second)
-	go func() {
-		for range jug.SubscribeToVrx() {
-		}
-	}()
-	go func() {
-		for range jug.SubscribeToTrx() {
-		}
-	}()
+	// four peers, half of the forwards to them fail: handlers and origin loops forward to them, one goroutine each
+	for i := 0; i < 4; i++ {
+		pw := newWallet()
+		g.AddPeer(pw.Address(), fmt.Sprintf("peer-%d", i), &flakyClient{})
+	}
+	go g.RunVertexGossip(ctx)
+	go g.RunTransactionGossip(ctx)
 	var seq atomic.Int64
 	newTrx := func(contract bool) transaction.Transaction {
 		n := seq.Add(1)
@@ -175,6 +177,13 @@ func raceMain(args []string) {
 			}
 			pt, _ := transformers.TrxToProtoTrx(newTrx(true))
 			_, _ = g.Server().GossipTrx(ctx, &pb.TrxMsgGossip{Trx: pt})
+			// and what the notary does with an accepted contract / a sealed vertex: hand it to the origin loops
+			pt2, _ := transformers.TrxToProtoTrx(newTrx(true))
+			jug.SendTrx(pt2)
+			if p, ok := someTip(rng); ok {
+				pc := p
+				jug.SendVrx(&pc)
+			}
 			if p, ok := someTip(rng); ok {
 				v, _ := accountant.NewVertex(newTrx(false), p.Hash, p.Hash, p.Weight+1, foreign)
 				_, _ = g.Server().GossipVrx(ctx, &pb.VrxMsgGossip{Vertex: vertexToProto(&v)})
@@ -188,4 +197,28 @@ func raceMain(args []string) {
 	fmt.Printf("{\"proposals\":%d,\"deliveries\":%d,\"reads\":%d,\"streams\":%d,\"truncations\":%d,\"cache_gossip\":%d}\n",
 		ops[0].Load(), ops[1].Load(), ops[2].Load(), ops[3].Load(), ops[4].Load(), ops[5].Load())
 	os.Exit(0)
+}
+
+// flakyClient is a peer whose gossip endpoints fail every other call.
+type flakyClient struct {
+	pb.GossipAPIClient
+	n atomic.Int64
+}
+
+func (f *flakyClient) GossipVrx(ctx context.Context, in *pb.VrxMsgGossip, opts ...grpc.CallOption) (*emptypb.Empty, error) {
+	if f.n.Add(1)%2 == 0 {
+		return nil, errors.New("peer unreachable")
+	}
+	return &emptypb.Empty{}, nil
+}
+
+func (f *flakyClient) GossipTrx(ctx context.Context, in *pb.TrxMsgGossip, opts ...grpc.CallOption) (*emptypb.Empty, error) {
+	if f.n.Add(1)%2 == 0 {
+		return nil, errors.New("peer unreachable")
+	}
+	return &emptypb.Empty{}, nil
+}
+
+func (f *flakyClient) GetVertex(ctx context.Context, in *pb.SignedHash, opts ...grpc.CallOption) (*pb.Vertex, error) {
+	return nil, errors.New("peer unreachable")
 }
